@@ -102,7 +102,7 @@ func (n *vNet) nearestAsked(key []byte) (best p2p.PeerID, any bool) {
 	return best, any
 }
 
-//verif: unwind=12 cover=multi-contact bounds="pool of 3 (quick) / 4 (thorough) symbolic node ids numbered by distance (symmetry reduction); initial list 0..2 pool nodes; each contacted node answers with 0..1 (quick) / 0..2 (thorough) pool nodes (repeats, self-references, cycles) or fails" map_perm_max=1
+// verif: unwind=12 cover=multi-contact bounds="pool of 3 (quick) / 4 (thorough) symbolic node ids numbered by distance (symmetry reduction); initial list 0..2 pool nodes; each contacted node answers with 0..1 (quick) / 0..2 (thorough) pool nodes (repeats, self-references, cycles) or fails" map_perm_max=1
 func VH_C20_putTruthful() bool {
 	key := []byte{vByte()}
 	n := vNewNet(key)
@@ -148,7 +148,7 @@ func VH_C20_putTruthful() bool {
 	return true
 }
 
-//verif: unwind=12 cover=multi-contact bounds="pool of 3 (quick) / 4 (thorough) symbolic node ids numbered by distance (symmetry reduction); initial list 1..2 pool nodes; each contacted node answers with 0..1 (quick) / 0..2 (thorough) pool nodes or fails" map_perm_max=1
+// verif: unwind=12 cover=multi-contact bounds="pool of 3 (quick) / 4 (thorough) symbolic node ids numbered by distance (symmetry reduction); initial list 1..2 pool nodes; each contacted node answers with 0..1 (quick) / 0..2 (thorough) pool nodes or fails" map_perm_max=1
 func VH_C20_findNodeTruthful() bool {
 	var target p2p.PeerID
 	target[0] = vByte()
@@ -182,7 +182,7 @@ func VH_C20_findNodeTruthful() bool {
 	return true
 }
 
-//verif: unwind=12 cover=multi-contact bounds="pool of 3 (quick) / 4 (thorough) symbolic node ids numbered by distance (symmetry reduction); initial list 1..2 pool nodes; each contacted node answers with 0..1 (quick) / 0..2 (thorough) pool nodes, a value or none, or fails" map_perm_max=1
+// verif: unwind=12 cover=multi-contact bounds="pool of 3 (quick) / 4 (thorough) symbolic node ids numbered by distance (symmetry reduction); initial list 1..2 pool nodes; each contacted node answers with 0..1 (quick) / 0..2 (thorough) pool nodes, a value or none, or fails" map_perm_max=1
 func VH_C20_getTruthful() bool {
 	key := []byte{vByte()}
 	n := vNewNet(key)
@@ -239,7 +239,7 @@ func (n *vNet) nearestRespondedGet(key []byte) (best p2p.PeerID, any bool) {
 	return best, any
 }
 
-//verif: unwind=12 cover=multi-contact bounds="pool of 3 (quick) / 4 (thorough) symbolic node ids numbered by distance (symmetry reduction); initial list 0..2 pool nodes; each contacted node answers with 0..1 (quick) / 0..2 (thorough) pool nodes or fails" map_perm_max=1
+// verif: unwind=12 cover=multi-contact bounds="pool of 3 (quick) / 4 (thorough) symbolic node ids numbered by distance (symmetry reduction); initial list 0..2 pool nodes; each contacted node answers with 0..1 (quick) / 0..2 (thorough) pool nodes or fails" map_perm_max=1
 func VH_C20_joinBounded() bool {
 	var target p2p.PeerID
 	target[0] = vByte()
@@ -269,7 +269,7 @@ func VH_C20_joinBounded() bool {
 	return got == added && got == contacted
 }
 
-//verif: cover=capped bounds="HandleFindNode with any Limit (symbolic int) over a node with 0..1 (quick) / 0..2 (thorough) peers: never more than 10 nodes, no panic"
+// verif: cover=capped bounds="HandleFindNode with any Limit (symbolic int) over a node with 0..1 (quick) / 0..2 (thorough) peers: never more than 10 nodes, no panic"
 func VH_C20_handleFindNodeCap() bool {
 	var id p2p.PeerID
 	id[0] = vByte()
